@@ -21,7 +21,10 @@ def build_circuit(N, prog, cls='Circuit'):
     gates = []
     for gd in prog:
         if gd['kind'] == 'measure':
-            circ.measure(*gd['qubits'])
+            if gd.get('via') == 'take':        # documented alternative: hand over the layer object
+                circ.take(pc.MeasureLayer(*gd['qubits'], N=N))
+            else:
+                circ.measure(*gd['qubits'])
             gates.append(None)
         elif gd['kind'] == 'rand':
             circ.gate(*gd['qubits'])
@@ -137,7 +140,7 @@ def apply_op(S, op):
 
 # ---- strategies for ops on N qubits ----------------------------------------------------------
 def st_prog_with_measure(N, max_len=6, rand=True):
-    meas = st.integers(1, N).flatmap(lambda n: st.fixed_dictionaries({'kind': st.just('measure'), 'qubits': gen.st_subset(N, n)}))
+    meas = st.integers(1, N).flatmap(lambda n: st.fixed_dictionaries({'kind': st.just('measure'), 'qubits': gen.st_subset(N, n), 'via': st.sampled_from(['measure', 'take'])}))
     rnd = st.integers(1, min(N, 2)).flatmap(lambda n: st.fixed_dictionaries({'kind': st.just('rand'), 'qubits': gen.st_subset(N, n)}))
     g = st.integers(0, 5).flatmap(lambda i: meas if i < 2 else (rnd if (i == 2 and rand) else gen.st_gate(N)))
     return st.lists(g, max_size=max_len)
